@@ -72,26 +72,26 @@ package server
 //@ func (*Server).addNetworkDelay
 //@   trusted sleeps for the configured artificial latency; touches no protocol state
 
-//@ func (*serviceImpl).Propose property C10
+//@ func (*serviceImpl).Propose property C10,C03
 //@   requires impl != nil && srvwf(impl.srv) && proposal != nil && hotstuffpb.wprop(proposal)
 //@   ensures [at-most-one-event] tracelen(added) == old(tracelen(added)) || (tracelen(added) == old(tracelen(added)) + 1 && istype(traceev(added, 0, old(tracelen(added))), hotstuff.ProposeMsg))
 //@   ensures [only-with-block] tracelen(added) > old(tracelen(added)) ==> old(proposal.Block) != nil && as(traceev(added, 0, old(tracelen(added))), hotstuff.ProposeMsg).Block != nil
 //@   ensures [sender-authenticated] tracelen(added) > old(tracelen(added)) && impl.srv.config.tree == nil ==> as(traceev(added, 0, old(tracelen(added))), hotstuff.ProposeMsg).ID == core.peerid(0)
 //@   modifies proposal.Block.Proposer, trace(added), impl.srv.eventLoop.eventQ.head, impl.srv.eventLoop.eventQ.tail, impl.srv.eventLoop.eventQ.entries[*], alloc
 
-//@ func (*serviceImpl).Vote property C10
+//@ func (*serviceImpl).Vote property C10,C09
 //@   requires impl != nil && srvwf(impl.srv) && hotstuffpb.wpc(cert)
 //@   ensures [at-most-one-event] tracelen(added) == old(tracelen(added)) || (tracelen(added) == old(tracelen(added)) + 1 && istype(traceev(added, 0, old(tracelen(added))), hotstuff.VoteMsg))
 //@   ensures [sender-authenticated] tracelen(added) > old(tracelen(added)) ==> as(traceev(added, 0, old(tracelen(added))), hotstuff.VoteMsg).ID == core.peerid(0)
 //@   modifies trace(added), impl.srv.eventLoop.eventQ.head, impl.srv.eventLoop.eventQ.tail, impl.srv.eventLoop.eventQ.entries[*], alloc
 
-//@ func (*serviceImpl).NewView property C10
+//@ func (*serviceImpl).NewView property C10,C07
 //@   requires impl != nil && srvwf(impl.srv) && hotstuffpb.wsi(msg)
 //@   ensures [at-most-one-event] tracelen(added) == old(tracelen(added)) || (tracelen(added) == old(tracelen(added)) + 1 && istype(traceev(added, 0, old(tracelen(added))), hotstuff.NewViewMsg))
 //@   ensures [sender-authenticated] tracelen(added) > old(tracelen(added)) ==> as(traceev(added, 0, old(tracelen(added))), hotstuff.NewViewMsg).ID == core.peerid(0)
 //@   modifies trace(added), impl.srv.eventLoop.eventQ.head, impl.srv.eventLoop.eventQ.tail, impl.srv.eventLoop.eventQ.entries[*], alloc
 
-//@ func (*serviceImpl).Timeout property C10
+//@ func (*serviceImpl).Timeout property C10,C08
 //@   requires impl != nil && srvwf(impl.srv) && hotstuffpb.wtm(msg)
 //@   ensures [at-most-one-event] tracelen(added) == old(tracelen(added)) || (tracelen(added) == old(tracelen(added)) + 1 && istype(traceev(added, 0, old(tracelen(added))), hotstuff.TimeoutMsg))
 //@   ensures [sender-authenticated] tracelen(added) > old(tracelen(added)) ==> as(traceev(added, 0, old(tracelen(added))), hotstuff.TimeoutMsg).ID == core.peerid(0)
@@ -99,7 +99,7 @@ package server
 
 // A block request for any hash bytes (absent, short, long) is answered from the local store
 // only: no fetch, no state change.
-//@ func (*serviceImpl).RequestBlock property C10
+//@ func (*serviceImpl).RequestBlock property C10,C13,C12
 //@   requires impl != nil && srvwf(impl.srv) && blockchain.binv(impl.srv.blockchain) && blockchain.bmaps(impl.srv.blockchain) && (pb != nil ==> len(pb.Hash) <= 268435456)
 //@   requires [stored-certificates-encodable] forall h hotstuff.Hash :: {impl.srv.blockchain.blocks[h]} has(impl.srv.blockchain.blocks, h) ==> hotstuffpb.encodable(impl.srv.blockchain.blocks[h].cert.signature)
 //@   ensures [found-or-error] (result0 != nil) == (result1 == nil)
